@@ -509,6 +509,7 @@ def gen_handshake(rng, s: Session, variant, password, *, want_success=None, nati
         native = rng.choice(ACCEPTED) if rng.random() < 0.75 else rng.choice(UNACCEPTED)
     w, h = size if size else (rng.choice([1, 4, 8, 20, 64, 100]), rng.choice([1, 4, 8, 20, 64, 70]))
     name = bytes(rng.randrange(32, 127) for _ in range(rng.choice([0, 1, 5, 30])))
+    s.serverinit_at = len(s.data)
     s.add(struct.pack("!HH16sI", w, h, native.block(), len(name)))
     if name:
         s.add(name)
